@@ -27,7 +27,7 @@ pub fn plan(p: &EpParams) -> Plan {
     Plan {
         episodes: n,
         exhaustive: false,
-        rule: "burst episodes: 17-60 simultaneous calls (Ack/Modify/PullRI/GetSub/blocking Pull/ListTopicSubs) on one subscription and its topic, with Publish x1-3, optional DeleteSubscription (one to three crossing deletes of the same subscription, or one abandoned by its client after 0-3 scheduler turns) / DeleteTopic / CreateSubscription / stream control messages; seeded yields at every mailbox site. Non-trivial: a mailbox was observed full (hook counter) and >=17 calls were in flight. Distinct: multiset of in-flight call kinds x which mailboxes saturated x outcome classes.".into(),
+        rule: "burst episodes: 17-60 simultaneous calls (Ack/Modify/PullRI/GetSub/blocking Pull/ListTopicSubs) on one subscription and its topic, with Publish x1-3, optional DeleteSubscription (one to three crossing deletes of the same subscription, or one abandoned by its client after 0-3 scheduler turns) / DeleteTopic / CreateSubscription / stream control messages (half of them sent while the stream's own subscription is flooded with 20-70 look-ups); seeded yields at every mailbox site. Non-trivial: a mailbox was observed full (hook counter) and >=17 calls were in flight. Distinct: multiset of in-flight call kinds x which mailboxes saturated x outcome classes.".into(),
     }
 }
 
@@ -221,7 +221,7 @@ async fn episode(p: &EpParams, mt: bool) -> EpReport {
     // one burst in five arrives in the very instant in which the leases taken before it run out (the
     // subscription actor finds a full mailbox and its expiry timer ready together)
     let mut jumped = false;
-    if rng.chance(1, 5) && !lease_ids.is_empty() {
+    if rng.chance(1, 5) && !lease_ids.is_empty() && !mt {
         tokio::time::advance(Duration::from_millis(10_000 + rng.below(200))).await;
         rep.inc("bursts_at_the_expiry_instant");
         // (the stream's own deliveries have expired as well: its acks below come too late to count)
@@ -233,6 +233,19 @@ async fn episode(p: &EpParams, mt: bool) -> EpReport {
         if !ds.is_empty() {
             let ids: Vec<String> = ds.iter().map(|d| d.ack_id.clone()).collect();
             stream_acked = ds.iter().map(|d| d.tag.clone()).collect();
+            // half of the time the stream's own subscription is flooded with look-ups at that moment
+            // (they change nothing, but its mailbox is full when the control message arrives)
+            if rng.chance(1, 2) && !mt {
+                let n = rng.range(20, 70);
+                for i in 0..n {
+                    let (c, sp) = (Cx::new(&w, 400 + i as u32), stream_sub.clone());
+                    let hnd = tokio::spawn(async move {
+                        let _ = c.get_sub(&sp).await;
+                    });
+                    tasks.push(("GetSub", w.vt(), hnd));
+                }
+                rep.inc("stream_control_sent_into_a_flooded_mailbox");
+            }
             h.send(&ids, &[], &[]);
         }
     }
